@@ -245,6 +245,18 @@ pub enum FailAt {
     SetTimeout,
 }
 
+thread_local! {
+    /// when set, the settings object cannot name the device's current state: all five getters return None
+    /// (a driver-level settings type whose flags have no `serial_core` equivalent)
+    pub static GETTERS_NONE: std::cell::Cell<bool> = const { std::cell::Cell::new(false) };
+}
+fn known<T>(v: T) -> Option<T> {
+    if GETTERS_NONE.with(|c| c.get()) {
+        None
+    } else {
+        Some(v)
+    }
+}
 #[derive(Debug, Clone, Copy)]
 pub struct MockSettings {
     pub inner: PortSettings,
@@ -252,19 +264,19 @@ pub struct MockSettings {
 }
 impl SerialPortSettings for MockSettings {
     fn baud_rate(&self) -> Option<BaudRate> {
-        Some(self.inner.baud_rate)
+        known(self.inner.baud_rate)
     }
     fn char_size(&self) -> Option<CharSize> {
-        Some(self.inner.char_size)
+        known(self.inner.char_size)
     }
     fn parity(&self) -> Option<Parity> {
-        Some(self.inner.parity)
+        known(self.inner.parity)
     }
     fn stop_bits(&self) -> Option<StopBits> {
-        Some(self.inner.stop_bits)
+        known(self.inner.stop_bits)
     }
     fn flow_control(&self) -> Option<FlowControl> {
-        Some(self.inner.flow_control)
+        known(self.inner.flow_control)
     }
     fn set_baud_rate(&mut self, baud_rate: BaudRate) -> serial_core::Result<()> {
         if self.fail_baud {
@@ -459,6 +471,9 @@ pub fn weird_settings() -> PortSettings {
 }
 
 pub fn parse_settings(s: &str) -> Option<PortSettings> {
+    // a leading `n`: the getters of the device's settings object return None
+    GETTERS_NONE.with(|c| c.set(s.starts_with('n')));
+    let s = s.strip_prefix('n').unwrap_or(s);
     let p: Vec<&str> = s.split(',').collect();
     if p.len() != 5 {
         return None;
@@ -700,6 +715,24 @@ pub fn serial_multi_case(timed: bool, msgs: &[Message<'static>], rd: VecDeque<RE
         parts.push(format!("{} => {}", toks.join(" "), o.res));
     }
     Some(format!("{} rest={}", parts.join(" ; "), rest))
+}
+
+/// `serial_multi_case` run from a destructor while the calling thread is unwinding from a panic (a bus handle that
+/// says goodbye or finishes a transfer in its Drop): pacing is owed there as anywhere else.
+pub fn serial_multi_case_unwinding(msgs: &[Message<'static>], rd: VecDeque<REv>, wr: VecDeque<WEv>) -> Option<String> {
+    struct OnDrop<'a>(&'a mut dyn FnMut());
+    impl Drop for OnDrop<'_> {
+        fn drop(&mut self) {
+            (self.0)()
+        }
+    }
+    let mut result: Option<String> = None;
+    let _ = std::panic::catch_unwind(std::panic::AssertUnwindSafe(|| {
+        let mut f = || result = serial_multi_case(true, msgs, rd.clone(), wr.clone());
+        let _guard = OnDrop(&mut f);
+        panic!("unwinding on purpose");
+    }));
+    result
 }
 
 pub fn serial_case(timed: bool, m: &Message<'static>, rd: VecDeque<REv>, wr: VecDeque<WEv>) -> Option<String> {
